@@ -163,10 +163,22 @@ func (k c09) Run(c *rt.Ctx) {
 		// a grouping expression defined through another GROUP BY field's name
 		gi := r.Intn(len(groups))
 		ref := gen.Ref(fmt.Sprintf("g%d", gi), groups[gi])
+		again := func() *gen.Node { return gen.Ref(fmt.Sprintf("g%d", gi), groups[gi]) }
 		switch groups[gi].T {
 		case gen.TN:
 			groups = append(groups, gen.Bin("*", ref, gen.Int(2)))
 			c.Rec.Inc("group_field_defined_through_a_name")
+			if c.Case%2 == 1 {
+				// the name read again and again inside one grouping expression, as the left operand
+				// of an operator first: every read sees the field's own value
+				// (the other operand differs from pair to pair: a wrong second read merges groups)
+				per := gen.Call("int", gen.Value())
+				if floats || implicit {
+					per = gen.Call("float", gen.Value())
+				}
+				groups = append(groups, gen.Bin("-", gen.Bin("+", again(), per), again()))
+				c.Rec.Inc("group_field_name_read_repeatedly")
+			}
 		case gen.TS:
 			groups = append(groups, gen.Bin("+", ref, gen.Str("x")))
 			c.Rec.Inc("group_field_defined_through_a_name")
